@@ -624,6 +624,29 @@ LEVELS = {
 }
 
 
+LEVELS.update({
+    "C02": ("other", "Proof core (tnmaps/fsets): the map-maintenance primitives of TensorNetwork (_link/_unlink tags and inds, "
+            "add_tensor, pop_tensor, _modify_tensor_*, _get_tids_from, _next_tid) keep the class invariant and have the exact "
+            "abstract effect over the whole view, and the 22 oset methods equal set algebra, for all networks without a label "
+            "repeated on one tensor (the repeated-label defect is a recorded finding); every other mutator and whole mutation "
+            "histories are run-time contracts (maps vs an independent recount after every step) on bounded histories.", _T_E1),
+    "C06": ("other", "Proof core (label calculus): the eager/lazy gate wiring of _tensor_network_gate_inds_basic and the mode table of "
+            "tensor_network_gate_inds for any number of sites; every application mode against the embedded dense operator is a "
+            "run-time contract on bounded geometries.", _T_E1),
+    "C09": ("other", "Proof core (label calculus): tensor_network_align, apply_op_vec, apply_op_op (all four which_A x which_B, "
+            "renames only where the operator acts), partial_trace_to_mpo (row labels on the unconjugated layer), expec_TN_1D; "
+            "arithmetic, generators and every 1D compression method against dense linear algebra are run-time contracts on "
+            "bounded chains.", _T_E1),
+    "C10": ("other", "Proof core (label calculus): DMRG / DMRGX assemble <bra|H|ket> with the bra on the upper and the ket on the lower "
+            "labels and hand the eigensolver the effective operator with bra rows and ket columns; the variational claims "
+            "(energy of the returned state, bounds, monotonicity, caps) are run-time contracts on bounded chains.", _T_E1),
+    "C13": ("other", "Proof core (label calculus): make_reduced_density_matrix, partial_trace_exact and local_expectation_exact attach "
+            "ket / bra labels and pair tensordot axes as sum rho[k,b] G[b,k] for any number of sites; every other route "
+            "(canonical, environment, boundary, cluster, loop expansion) against the dense state is a run-time contract on "
+            "bounded systems.", _T_E1),
+})
+
+
 def level_of(pid):
     return LEVELS.get(pid)
 
